@@ -929,10 +929,25 @@ func (x *Exec) episode(i int, op Op) *vcore.Failure {
 			single[class] = true
 		}
 		res := &OpResult{}
-		if x.harnessOp(sub, res) {
+		var name string
+		var fn func()
+		if sub.K == "synclister" {
+			// the informer's reflector goroutine updates the pod cache concurrently with every request
+			if single["reflector"] {
+				continue
+			}
+			single["reflector"] = true
+			n := 1 + pick(3, sub.A)
+			name, fn = "synclister", func() {
+				if w.SyncPodLister(n) == 0 {
+					res.NoOp = true
+				}
+			}
+		} else if x.harnessOp(sub, res) {
 			continue // harness-only ops are not part of concurrent episodes
+		} else {
+			name, fn = x.opClosure(sub, res)
 		}
-		name, fn := x.opClosure(sub, res)
 		if fn == nil {
 			continue
 		}
